@@ -99,7 +99,7 @@ impl World {
         } else {
             self.violate(Violation::new(
                 "panic",
-                &[Prop::C06, Prop::C15, Prop::C19, Prop::C05, Prop::C11, Prop::C04, Prop::C10, Prop::C12],
+                &[Prop::C06, Prop::C15, Prop::C19, Prop::C05, Prop::C11, Prop::C04, Prop::C10, Prop::C12, Prop::C02, Prop::C03],
                 format!("{what} panicked: {} at {}", info.message, info.location),
             ));
         }
@@ -963,7 +963,7 @@ pub fn api_harness(spec: &RunSpec) -> RunOutput {
                         rule,
                         // A client that stops with an error (no fault injected into it) stops
                         // delivering everything the API-level properties promise.
-                        &[Prop::C06, Prop::C15, Prop::C12, Prop::C04, Prop::C05, Prop::C10, Prop::C19],
+                        &[Prop::C06, Prop::C15, Prop::C12, Prop::C04, Prop::C05, Prop::C10, Prop::C19, Prop::C02, Prop::C03],
                         format!("Client::run of client{i} (1.{}) returned {e} (victim={victim}, fault fired={fired}, fault={fault_kind}@{fault_at})", c.minor),
                     ));
                 }
